@@ -10,6 +10,10 @@ C11-c  the download write path uses unbuffered descriptor I/O only (no FILE* wri
        callbacks), so what was written before an interruption is on the descriptor.
 C11-d  the restart's scan classifies every chunk (no early exit of the chunk loop except for a detached header), so
        a chunk that was completely written is found valid and not fetched again (shared with C09-d).
+C11-e  the restart converges: exit status 0 of the restarted zckdl is reachable only with no chunk missing, through
+       a whole-file gate and after ftruncate(dst_fd, zck_get_length(tgt)) - also on the path where the scan finds
+       every chunk already valid (an interruption after the last chunk byte but before the final truncate
+       leaves a longer pre-existing target with its old tail) (shared with C04-a).
 Declined: the quantification over crash points and the on-disk intermediate states.
 """
 from ..rules import dlmain, dlrules
@@ -30,7 +34,8 @@ def run(ctx):
     ck.declined += ['quantification over crash points and on-disk intermediate states']
     for config in ctx.configs():
         prog = ctx.prog(config)
-        dlmain.check_protocol(ck, prog, config, {'scan-first': 'C11-a', 'reset-failed': 'C11-a'})
+        dlmain.check_protocol(ck, prog, config, {'scan-first': 'C11-a', 'reset-failed': 'C11-a', 'truncate': 'C11-e',
+                                                 'complete': 'C11-e', 'gate': 'C11-e'})
         dlmain.check_open_flags(ck, prog, config, 'C11-a')
         c09.scan_reads(ck, prog, config, 'C11-b', 'C11-b')
         c09.scan_loop_exits(ck, prog, config, 'C11-d')
@@ -55,15 +60,24 @@ def run(ctx):
 CLAIM = {
     'technique': 'protocol-order typestate over zckdl main(), open-flag check, read-discipline and loop-extent rules '
                  'of the validity scan, validity-flag inventory, arming guard, call-graph reachability (no buffered '
-                 'writer below the callbacks), scan loop-exit and verdict-store rules shared with C09',
+                 'writer below the callbacks), scan loop-exit and verdict-store rules shared with C09, exit-status obligations (complete, gate, truncate) on every path of the restart',
     'text': 'static analysis: decides C11-a..c (mechanism) - a restart re-derives validity from checksums before any '
             'request, resets failed chunks, never truncates the target on open; a short or failed read cannot classify '
             'a chunk valid and the scan hashes exactly what it read; chunks become valid only under a digest '
-            'comparison; writes go straight to the descriptor. Crash points are not enumerated. C11-d: the restart\'s scan classifies every chunk and stores every verdict.',
+            'comparison; writes go straight to the descriptor. Crash points are not enumerated. C11-d: the restart\'s scan classifies every chunk and stores every verdict. C11-e: every exit with status 0 of the restarted tool has no chunk missing, passed a whole-file gate and truncated the target to the new length.',
     'note': 'trusted: clang 14 front end; O_TRUNC = 01000 (Linux); call graph over-approximates slots',
 }
 
 MUTANTS = [
+    {'id': 'm11t', 'desc': 'all-valid restart path leaves without truncating (seeded c11r4)', 'file': 'src/zck_dl.c',
+     'old': """            if(ftruncate(dst_fd, zck_get_length(zck_tgt)) < 0) {
+                perror(NULL);
+                exit_val = 10;
+                goto out;
+            }
+            exit_val = 0;
+            goto out;""", 'new': """            exit_val = 0;
+            goto out;""", 'expect': 'R2.protocol zckdl main [truncate]'},
     {'id': 'm24', 'desc': 'failed chunks not reset', 'file': 'src/zck_dl.c',
      'old': """        zck_reset_failed_chunks(zck_tgt);""", 'new': '', 'expect': 'BROKEN'},
     {'id': 'm24b', 'desc': 'failed chunks reset only with a source', 'file': 'src/zck_dl.c',
